@@ -159,6 +159,10 @@ example : MapsOK [[2, 0, 3, 1], [1, 0], [0, 2, 1]] := by
   intro m hm; simp at hm; rcases hm with rfl | rfl | rfl <;> exact ⟨by decide, by decide⟩
 example : mergePositions [[(0, 0), (10, 5)], [(0, 0), (10, 5)], [(5, 1), (7, 2)]] =
     [(0, 0), (10, 5), (20, 0), (30, 5), (45, 1), (47, 2)] := by decide
+-- the model's coordinates are `Int`s of any size: site coordinates in nanometres (beyond the 24 bits of single
+-- precision, what an integer `channel_positions.npy` holds exactly) are translated exactly, y untouched
+example : mergePositions [[(11000007, 2000000013), (59000009, 2020000041)], [(27000031, 2000000005), (43000002, 2040000047)]] =
+    [(11000007, 2000000013), (59000009, 2020000041), (134000042, 2000000005), (150000013, 2040000047)] := by decide
 -- the hypothesis `PosOK` (two distinct x per probe) of `positions_apart` cannot be dropped: probes whose
 -- channels share one x are NOT kept apart (open known finding PF-C12e, replayed on the real code)
 example : mergePositions [[(0, 0), (0, 20)], [(0, 0), (0, 20)]] = [(0, 0), (0, 20), (0, 0), (0, 20)] := by decide
